@@ -356,3 +356,21 @@ Proof.
   - exfalso. destruct Htm as [-> | [(e & -> & Y) | (e & -> & Y)]]; cbn [timer_should_close] in B; try discriminate.
     destruct (Z.geb_spec (cx_now cx) e); [lia | discriminate].
 Qed.
+
+(* a CLOSED socket without address tuple stays so, and emits nothing, whatever the application or the
+   interface does with it (segments apart: the interface answers those itself) *)
+Lemma closed_keep cx s ev0 s' out tags :
+  s_state s = Closed -> s_tuple s = None ->
+  match ev0 with EvSend _ | EvRecv _ | EvClose | EvDispatch _ => True | _ => False end ->
+  tcp_step cx s ev0 = Ok (s', out, tags) ->
+  s_state s' = Closed /\ s_tuple s' = None /\ wire_out out = None.
+Proof.
+  intros Hst Htu Hev H. destruct ev0; try contradiction; cbn [tcp_step] in H.
+  - unfold tcp_close in H. rewrite Hst in H. inversion H; subst. auto.
+  - unfold tcp_send_slice, tcp_may_send in H. rewrite Hst in H. cbn [negb] in H. inversion H; subst. auto.
+  - destruct (tcp_recv_slice s n) as [(s1, b)|e|] eqn:E; [| |discriminate]; inversion H; subst; auto.
+    unfold tcp_recv_slice in E. obind_inv E.
+    destruct (rb_dequeue_slice (s_rx_buffer s) n) as (rx, bytes). inversion E; subst. sproj. auto.
+  - apply obind_ok in H. destruct H as (((s1 & res) & tg) & Hd & H). inversion H; subst.
+    unfold tcp_dispatch in Hd. rewrite Htu in Hd. inversion Hd; subst. auto.
+Qed.
